@@ -357,9 +357,20 @@ def run_unicode():
             ascii_cps.append(c)
             if any(not x.isalnum() for x in d if ord(x) < 128):
                 special.append(c)
+    # code points a transliteration to ASCII would plausibly spell with a separator (same definition as
+    # vt/props/c19.py translit_cps; the check compares the two sets)
+    sep_names = ("SPACE", "SEMICOLON", "COLON", "QUOTATION", "QUOTE", "APOSTROPHE", "COMMA", "PRIME")
+    translit = []
+    for c in range(128, 0x110000):
+        if c in control or 0xD800 <= c <= 0xDFFF:
+            continue
+        cat = unicodedata.category(chr(c))
+        if cat[0] in "PZ" or cat in ("Sk", "Lm") or any(x in unicodedata.name(chr(c), "") for x in sep_names):
+            translit.append(c)
     cds = []
     todo = [(c, CD_CONTEXTS[0]) for c in range(0, 0x110000, step)]
     todo += [(c, ctx) for c in ascii_cps for ctx in CD_CONTEXTS]
+    todo += [(c, ctx) for c in translit for ctx in CD_CONTEXTS]
     seen = set()
     for c, ctx in todo:
         if c in control or 0xD800 <= c <= 0xDFFF or (c, ctx) in seen:
@@ -371,7 +382,7 @@ def run_unicode():
         except Exception as e:
             cds.append([c, ctx, "EXC " + type(e).__name__])
     sys.stdout.write(json.dumps({"spaces": spaces, "bad_nfkd": bad_nfkd, "bad_str": bad_str, "ascii_from": ascii_from,
-                                 "unidata_version": unicodedata.unidata_version, "cds": cds, "special": special,
+                                 "unidata_version": unicodedata.unidata_version, "cds": cds, "special": special, "translit": translit,
                                  "runtime_writers": {k: [v.file_extension, v.content_type, v.name]
                                                      for k, v in nserve.name2writer.items()}}) + "\n")
 
